@@ -165,6 +165,14 @@ def directed():
                                   {"op": "assign", "u": u, "rs": Ellipsis, "cs": None, "has_cs": False, "vk": "scalar", "val": 777},
                                   {"op": "obs", "u": "a0", "what": "tolist", "arg": None}, {"op": "obs", "u": u, "what": "tolist", "arg": None}], "hazard": False}
         yield {"steps": steps0 + [{"op": "maskassign", "u": u, "c": 20, "val": 555}, {"op": "obs", "u": "a0", "what": "tolist", "arg": None}], "hazard": False}
+        # the first thing that happens to the derived array is a numpy function the library does not implement (refused, but it has looked at
+        # the array like any other read); then its source is overwritten; then it is read
+        # (the selections in between are read first: what is still unread when its source is written is the open finding F10)
+        between_ = [{"op": "obs", "u": "a%d" % k_, "what": "tolist", "arg": None} for k_ in range(1, len(chain))]
+        for what_, arg_ in [("unimpl", k_) for k_ in range(4)]:
+            yield {"steps": steps0 + between_ + [{"op": "obs", "u": u, "what": what_, "arg": arg_},
+                                      {"op": "assign", "u": "a0", "rs": Ellipsis, "cs": None, "has_cs": False, "vk": "scalar", "val": 777},
+                                      {"op": "obs", "u": u, "what": "tolist", "arg": None}, {"op": "obs", "u": "a0", "what": "tolist", "arg": None}], "hazard": False}
         if n:
             yield {"steps": steps0 + [{"op": "assign", "u": u, "rs": 0, "cs": None, "has_cs": False, "vk": "scalar", "val": 888},
                                       {"op": "obs", "u": "a0", "what": "ravel", "arg": None}, {"op": "obs", "u": u, "what": "tolist", "arg": None}], "hazard": False}
